@@ -2002,6 +2002,14 @@ impl<'a> VisitMut for Rewriter<'a> {
                         replacement = Some(parse_quote!(vstring_from(#a)));
                     }
                 }
+                // N22d: `String::from_utf8(e)` -> vstring_from_utf8(e) (std: Ok(the string) for valid UTF-8, Err otherwise; its error type has no Verus view)
+                if let Expr::Path(p) = &*c.func {
+                    if p.path.segments.len() == 2 && p.path.segments[0].ident == "String" && p.path.segments[1].ident == "from_utf8" && c.args.len() == 1 {
+                        let a = &c.args[0];
+                        self.n.rule("N22", sp, "String::from_utf8(e) -> vstring_from_utf8(e)");
+                        replacement = Some(parse_quote!(vstring_from_utf8(#a)));
+                    }
+                }
                 // N22: `u64::from_le_bytes(e)` -> vu64_from_le_bytes(e) (std signature uses a const expression Verus cannot name)
                 if let Expr::Path(p) = &*c.func {
                     if p.path.segments.len() == 2 && p.path.segments[0].ident == "u64" && p.path.segments[1].ident == "from_le_bytes" && c.args.len() == 1 {
